@@ -50,6 +50,8 @@ func NewRangeVectorCursor(input comm.KeyCursor, schema *executor.QuerySchema, gl
 	c := &RangeVectorCursor{}
 	c.aggregateCursor = *NewAggregateCursor(input, schema, globalPool, false)
 	c.aggregateCursor.r = c
+	// staleness markers are dropped from the records as they are read (a record that held nothing else is skipped)
+	c.aggregateCursor.recFilter = FilterRangeNANPoint
 
 	c.lookUpDelta = schema.Options().GetPromLookBackDelta().Nanoseconds()
 	c.rangeDuration = schema.Options().GetPromRange().Nanoseconds()
@@ -84,7 +86,6 @@ func (c *RangeVectorCursor) SetSchema(inSchema, outSchema record.Schemas, exprOp
 }
 
 func (c *RangeVectorCursor) reduce(inRecord, newRecord *record.Record) {
-	inRecord = FilterRangeNANPoint(inRecord)
 	c.getIntervalIndex(inRecord)
 	c.setReducerParams()
 	c.coProcessor.WorkOnRecord(inRecord, newRecord, c.reducerParams)
